@@ -68,7 +68,14 @@ LEVEL_TEXT = (
     "evaluation points and guess, as views into larger caller arrays whose every byte is compared afterwards; bool / longdouble / "
     "complex-with-zero-imaginary-part / 0-d / kind-changing values returned by the right-hand side and the coefficient callables; "
     "accepted solves before and after eleven kinds of calls that end in an exception (bit-identical). The oracle and the "
-    "correspondence run as independent parts (an exception in one part is recorded and the others still run)."
+    "correspondence run as independent parts (an exception in one part is recorded and the others still run). "
+    "ROUND 5 (generators only): evaluation arrays of 1025 / 4097 / 20001 (more: 31234, 65537; thorough: 2^19 + 1) shuffled points "
+    "against two parts of the array and single points next to the block boundaries, meshes of 1025 / 1537 nodes, the array helpers of "
+    "ode.py on the same sizes; inputs given directly as longdouble / float32 / float16 / integers (answer, argument unchanged, second "
+    "call equal); transforms with an explicit scale b on intervals beyond / around / up to b and one transform object (b explicit or "
+    "inferred) serving four different problems in sequence; the same argument arrays refilled in place between two calls; two "
+    "problems that differ in one hidden dependency (trim_inf, exponent, order, no_derivatives, scale, transform or none) solved and "
+    "evaluated in either order and interleaved."
 )
 TECHNIQUE = ("Lean 4 proof over regenerated source text (transformation algebra, derivative matrices, explicit form, "
              "the bodies of the public functions and their callbacks, end-to-end under the contracts of the SciPy primitives) + differential correspondence of the private helpers and of "
@@ -228,6 +235,16 @@ ASSUMPTIONS = [
     "(UFuncTypeError, a TypeError) even with a vanishing imaginary part, a complex right-hand side with a vanishing imaginary part is "
     "accepted with NumPy's ComplexWarning (a non-zero imaginary part would be dropped by SciPy's real integrators: outside the "
     "property); single-precision evaluation points only for the ordinary problems of the catalogue (y to 5e-5)",
+    "round 5, measured on the unchanged tree: the callable for n = 1025 .. 65537 (thorough: 2^19 + 1) shuffled points equals bit for bit "
+    "its answers on two parts of the array and on single points; span / y0 / mesh / guess / boundary values / points given as "
+    "longdouble agree with float64 to 1e-12, as float32 to 5e-5, as float16 to 5e-2 (half-precision abscissae only without a "
+    "transform: rtransform then computes in half precision and overflows), integer data exactly; a transform with b=None takes b from "
+    "the first thing it sees - the largest mesh node in solve_ode_bvp but the SCALAR x_span[0] in solve_ode_ivp (a span starting at 0 "
+    "is then rejected: 'b 0.0 ... can't be zero'; with b = 0.3 the image of x = 3 is 1e16): the sequences on one b-less object let "
+    "the first problem fix b = 3; solve_ode_ivp WITHOUT a transform hands the caller's float64 y0 array itself to SciPy's solve_ivp, "
+    "whose dense output keeps it as the start of its first segment - after `y0[:] = new` a callable obtained earlier starts from the "
+    "new values (witness: y0 = np.array([1.5]); sol = solve_ode_ivp((1., 2.), f, [-0.5, 1.0], y0); y0[:] = -0.5; sol([1.0]) is now "
+    "-0.5) - reported, not asserted; with a transform and for solve_ode_bvp the library builds its own arrays",
     "the Bell loop of _transform_ode_from_derivs for orders above 3 is carried and compared although it is outside the property "
     "(solve_ode_ivp / solve_ode_bvp reject order > 3 together with a transform); no theorem depends on what it computes, so a change "
     "there is regenerated and compared, not reported. Observation: for five or more coefficients rows 1-3 of coeff_b do not "
@@ -1446,6 +1463,7 @@ def oracle(ctx: Ctx, budget: str, only=None):
     _run_parts(ctx, "oracle", [
         ("sequences", lambda: _audit_sequences(ctx, cat, only)), ("initial-value-problems", part_ivp), ("boundary-value-problems", part_bvp),
         ("round3", guarded(lambda: _oracle_round3(ctx, cat, only, large))), ("round4", guarded(lambda: _oracle_round4(ctx, cat, only, large))),
+        ("round5", guarded(lambda: _oracle_round5(ctx, cat, only, large))),
         ("containers", guarded(lambda: _audit_containers(ctx, only)))])
 
 
@@ -2204,6 +2222,250 @@ def check_raise_no_trace(case):
 exec(R4_HELPERS, _ns)
 _AUDIT_HEADER = HELPERS + AUDIT_HELPERS + R3_HELPERS + R4_HELPERS + "\nimport signal; signal.alarm(300)\n"
 
+# ---- round 5: sizes past block boundaries (21), precision kinds of direct inputs (23), scale parameters independent of the data
+#      (24), in-place reuse of one argument object (25), two instances that differ in one hidden dependency (26) ------------------
+R5_HELPERS = r'''
+def _solver(prob, kind, nod=False, tf='given'):
+    if kind == 'ivp':
+        order = len(prob['coeffs']) - 1
+        y0 = [float(y_deriv(prob['y'], k)(prob['span'][0])) for k in range(order)]
+        return solve_ode_ivp(span_of(prob), rhs(prob), [coeff_fn(c) for c in prob['coeffs']], y0, make_tf(prob) if tf == 'given' else tf,
+                             method=prob['method'], rtol=prob['rtol'], atol=prob['atol'], no_derivatives=nod)
+    return run_bvp(prob, tf=tf, no_derivatives=nod)[0]
+
+def check_many_points(case):
+    # class 21: n evaluation points (n just above a power of two / a round decimal, in shuffled order): the answer for all
+    # points at once must be, bit for bit, the concatenation of the answers for two parts of the array and for single
+    # elements next to the block boundaries, and right against the exact solution
+    prob, kind, n, nod = case['prob'], case['kind'], case['n'], case['nod']
+    order = len(prob['coeffs']) - 1
+    a, b = float(prob['span'][0]), float(prob['span'][1])
+    pts = a + (b - a) * np.random.RandomState(case['seed']).permutation(n) / (n - 1.0)
+    sol = _solver(prob, kind, nod)
+    only_y = bool(nod and prob['tf'])
+    rows = 1 if only_y else order
+    full = np.asarray(sol(pts))
+    if full.shape != ((n,) if only_y else (order, n)):
+        raise Violation('shape', f'{n} points: returned shape {full.shape}')
+    F = full.reshape(rows, n)
+    ex = np.array([y_deriv(prob['y'], k)(pts) for k in range(rows)])
+    sc = 1 + np.max(np.abs(ex), axis=1)
+    bad = np.abs(F - ex) / sc[:, None] > case['tol']
+    if bad.any():
+        j = int(np.argmax(bad.any(axis=0)))
+        raise Violation('many-points', f'{n} evaluation points: {int(bad.any(axis=0).sum())} columns are off the exact solution by more than {case["tol"]}, '
+                        f'the first at index {j} (x = {pts[j]!r}): {F[:, j].tolist()} instead of {ex[:, j].tolist()}')
+    for n1 in case['splits']:
+        parts = np.concatenate([np.asarray(sol(pts[:n1])).reshape(rows, -1), np.asarray(sol(pts[n1:])).reshape(rows, -1)], axis=1)
+        if parts.shape != F.shape or not np.array_equal(parts, F):
+            j = int(np.argmax((parts != F).any(axis=0))) if parts.shape == F.shape else -1
+            raise Violation('many-points', f'{n} evaluation points: the answer for the whole array differs from the answers for [:{n1}] and [{n1}:] '
+                            f'put together (first at index {j}: {F[:, j].tolist() if j >= 0 else parts.shape} vs {parts[:, j].tolist() if j >= 0 else F.shape})')
+    for i in sorted({0, n - 1} | {m + d for m in (2 ** k for k in range(5, 21)) for d in (-1, 0) if 0 <= m + d < n})[-14:]:
+        one = np.asarray(sol(pts[i:i + 1])).reshape(rows)
+        if not np.array_equal(one, F[:, i]):
+            raise Violation('many-points', f'{n} evaluation points: column {i} is {F[:, i].tolist()}, the same point evaluated alone gives {one.tolist()}')
+    return 'ok'
+
+def check_helper_sizes(case):
+    # class 21 on the array helpers of ode.py themselves (cheap: no solve): N points against two parts and single points
+    from grid import ode as _ode
+    n, order = case['n'], case['order']
+    rs = np.random.RandomState(case['seed'])
+    x = rs.uniform(-0.6, 0.6, n)
+    tf = eval(case['tf'])
+    coeffs = [(lambda t, c=c, k=k: c * (1.0 + 0.25 * np.sin((k + 1) * t))) if k % 2 else float(c) for k, c in enumerate(case['a'])]
+    y = rs.uniform(-2, 2, (order, n))
+    f = lambda t: np.cos(1.5 * t) + 0.3
+    def calls(xs, ys):
+        cb = _ode._transform_ode_from_rtransform(coeffs, tf, xs)
+        return [np.asarray(_ode._evaluate_coeffs_on_points(xs, coeffs)), np.asarray(cb),
+                np.asarray(_ode._rearrange_to_explicit_ode(ys, cb, f(xs)))[None, :],
+                np.asarray(_ode._transform_and_rearrange_to_explicit_ode(xs, ys, coeffs, tf, f))[None, :]]
+    names = ['_evaluate_coeffs_on_points', '_transform_ode_from_rtransform', '_rearrange_to_explicit_ode', '_transform_and_rearrange_to_explicit_ode']
+    with warnings.catch_warnings():
+        warnings.simplefilter('ignore')
+        full = calls(x, y)
+        for n1 in case['splits']:
+            A, B = calls(x[:n1], y[:, :n1]), calls(x[n1:], y[:, n1:])
+            for nm, F, pa, pb in zip(names, full, A, B):
+                P = np.concatenate([pa, pb], axis=1)
+                if P.shape != F.shape or not np.array_equal(P, F):
+                    j = int(np.argmax((P != F).any(axis=0))) if P.shape == F.shape else -1
+                    raise Violation('helper-sizes', f'{nm} on {n} points (shape {F.shape}) differs from its values on the parts [:{n1}], [{n1}:] '
+                                    f'(shape {P.shape}), first at column {j}')
+        for i in (0, n1 - 1, n1, n - 1):
+            one = calls(x[i:i + 1], y[:, i:i + 1])
+            for nm, F, o in zip(names, full, one):
+                if not np.array_equal(o[:, 0], F[:, i]):
+                    raise Violation('helper-sizes', f'{nm} on {n} points: column {i} is {F[:, i].tolist()}, the point alone gives {o[:, 0].tolist()}')
+    return 'ok'
+
+_NARROW = {'longdouble': (np.longdouble, 1e-12), 'float32': (np.float32, 5e-5), 'float16': (np.float16, 5e-2), 'int': (np.int64, 1e-12)}
+
+def check_precision_kinds(case):
+    # class 23: span / y0 / mesh / guess / boundary values / evaluation points given directly as longdouble, float32, float16
+    # or integer data (values exactly representable in every one of them): the float64 answer to the precision of the
+    # narrower type, the argument unchanged, a second call with the same argument object equal to the first
+    order, kind = case['order'], case['kind']
+    CO = COEF[order]
+    tf = eval(case['tf']) if case['tf'] else None
+    fx = lambda x: 1.0 + 0 * np.asarray(x, dtype=float)
+    y0 = [1.5, -0.25, 0.75][:order]
+    mesh = np.linspace(1.0, 3.0, 9)
+    pts = np.array([2.5, 1.0, 3.0, 1.75, 2.0, 1.0])
+    ipts = np.array([3, 1, 2, 1])
+    bdv = [0.5, -1.25, 2.0][:order]
+    def solve(sp, yy, mm, gg, bv, pp):
+        if kind == 'ivp':
+            return np.atleast_2d(solve_ode_ivp(sp, fx, CO, yy, tf, rtol=1e-10, atol=1e-12)(pp))
+        bd = [(0, j, bv[j]) for j in range(order)]
+        return np.atleast_2d(solve_ode_bvp(mm, fx, CO, bd, tf, tol=1e-8, max_nodes=20000, initial_guess_y=gg, no_derivatives=False)(pp))
+    base = dict(sp=(1.0, 3.0), yy=list(y0), mm=mesh, gg=np.zeros((order, 9)), bv=list(bdv), pp=pts)
+    ref = solve(**base)
+    refi = solve(**dict(base, pp=ipts.astype(float)))
+    sc = 1 + np.max(np.abs(ref))
+    for tname, what in case['variants']:
+        T, tol = _NARROW[tname]
+        args = dict(base)
+        want = ref
+        if what == 'span':
+            args['sp'] = (T(1), T(3)) if tname == 'int' else (T(1.0), T(3.0))
+        elif what == 'y0':
+            args['yy'] = np.array(y0, dtype=T) if tname != 'int' else np.array([2, -1, 1][:order])
+            if tname == 'int':
+                want = solve(**dict(base, yy=[2.0, -1.0, 1.0][:order]))
+        elif what == 'mesh':
+            args['mm'] = mesh.astype(T) if tname != 'int' else np.arange(1, 4)
+            if tname == 'int':
+                args['gg'] = np.zeros((order, 3))
+                want = solve(**dict(base, mm=np.array([1.0, 2.0, 3.0]), gg=np.zeros((order, 3))))
+        elif what == 'guess':
+            args['gg'] = np.zeros((order, 9), dtype=T)
+        elif what == 'boundary-values':
+            args['bv'] = [T(v) for v in bdv] if tname != 'int' else [np.int64(1), np.int64(-2), np.int64(2)][:order]
+            if tname == 'int':
+                want = solve(**dict(base, bv=[1.0, -2.0, 2.0][:order]))
+        elif what == 'points':
+            args['pp'] = pts.astype(T) if tname != 'int' else ipts
+            if tname == 'int':
+                want = refi
+        if (what in ('span', 'y0') and kind != 'ivp') or (what in ('mesh', 'guess', 'boundary-values') and kind != 'bvp'):
+            continue
+        if tname == 'float16' and tf is not None and what in ('span', 'mesh', 'points'):
+            continue     # (half-precision abscissae make rtransform compute in half precision: overflow to inf inside e.g.
+                         #  InverseRTransform(HandyModRTransform(0.1, 10, 3)) on the unchanged tree - only without a transform)
+        held = {k: v for k, v in args.items() if isinstance(v, np.ndarray)}
+        snap = {k: (v.dtype, v.tobytes()) for k, v in held.items()}
+        try:
+            o1 = solve(**args)
+            o2 = solve(**args)
+        except Exception as e:
+            raise Violation('precision-kinds', f'{what} given as {tname}: raised {type(e).__name__}: {e}')
+        for k, v in held.items():
+            if (v.dtype, v.tobytes()) != snap[k]:
+                raise Violation('caller-data', f'{what} given as {tname}: the argument was modified (dtype {v.dtype}, now {v.tolist()})')
+        if o1.shape != want.shape or not np.max(np.abs(o1 - want)) <= tol * sc:
+            raise Violation('precision-kinds', f'{what} given as {tname}: differs from the float64 answer by '
+                            f'{np.max(np.abs(o1 - want)) / sc if o1.shape == want.shape else o1.shape} (allowed {tol})')
+        if not np.array_equal(o1, o2):
+            raise Violation('precision-kinds', f'{what} given as {tname}: a second call with the same argument objects differs by {np.max(np.abs(o1 - o2))}')
+    return 'ok'
+
+def check_scale_sequence(case):
+    # class 24: ONE transform object (its scale parameter given explicitly, or inferred by the library at its first use)
+    # serves several different problems in sequence - different intervals, beyond b, initial- and boundary-value - each
+    # answer against the exact solution (the solution does not depend on the scale)
+    tf = eval(case['tf'])
+    for step, (kind, prob) in enumerate(case['steps']):
+        pts = np.linspace(prob['span'][0], prob['span'][1], 9)
+        try:
+            sol = _solver(prob, kind, False, tf)
+            out = np.atleast_2d(sol(pts))
+        except Exception as e:
+            raise Violation('scale-parameter', f'step {step} ({kind} on {prob["span"]}) with the transform object {case["tf"]} used since step 0: raised {type(e).__name__}: {e}')
+        ex, sc = _rows_exact(prob, pts)
+        e = _rel(out, ex, sc) if out.shape == ex.shape else float('inf')
+        if not e <= case['tol'][kind]:
+            raise Violation('scale-parameter', f'step {step} ({kind} on {prob["span"]}) with the transform object {case["tf"]} used since step 0: off the exact '
+                            f'solution by {e:.3g} > {case["tol"][kind]}')
+    return 'ok'
+
+def check_inplace_reuse(case):
+    # class 25: the SAME array objects (y0, coefficients, mesh, guess, boundary list, evaluation points) are filled with new
+    # contents in place between two calls: the second answer must be the one for fresh copies of the new contents, and the
+    # callable obtained first must still give its first answer
+    order, kind = case['order'], case['kind']
+    tf = eval(case['tf']) if case['tf'] else None
+    fx = lambda x: 1.0 + 0 * np.asarray(x, dtype=float)
+    A = dict(y0=np.array([1.5, -0.25, 0.75][:order]), co=np.array(COEF[order], dtype=float), mesh=np.linspace(1.0, 2.0, 9),
+             guess=np.zeros((order, 9)), bd=[[0, j, [0.5, -1.25, 2.0][j]] for j in range(order)], pts=np.array([1.75, 1.0, 2.0, 1.25]))
+    def solve(a):
+        if kind == 'ivp':
+            return solve_ode_ivp((float(a['mesh'][0]), float(a['mesh'][-1])), fx, a['co'], a['y0'], tf, rtol=1e-10, atol=1e-12)
+        return solve_ode_bvp(a['mesh'], fx, a['co'], a['bd'], tf, tol=1e-8, max_nodes=20000, initial_guess_y=a['guess'], no_derivatives=False)
+    s1 = solve(A)
+    o1 = np.array(s1(A['pts']))
+    keep_pts = A['pts'].copy()
+    # new contents, in place
+    A['y0'][:] = [-0.5, 1.0, 0.25][:order]
+    A['co'] *= -2.0
+    A['mesh'][:] = np.linspace(1.5, 3.0, 9)
+    A['guess'] += 1.0
+    for j in range(order):
+        A['bd'][j][2] = [1.0, 0.5, -0.75][j]
+    A['pts'][:] = [2.75, 1.5, 3.0, 2.0]
+    s2 = solve(A)
+    o2 = np.array(s2(A['pts']))
+    B = {k: (np.array(v, copy=True) if isinstance(v, np.ndarray) else [list(t) for t in v]) for k, v in A.items()}
+    fresh = np.array(solve(B)(B['pts']))
+    if o2.shape != fresh.shape or not np.array_equal(o2, fresh):
+        raise Violation('inplace-reuse', f'second call with the same array objects refilled in place: differs from the call with fresh copies of the new contents by '
+                        f'{np.max(np.abs(o2 - fresh)) if o2.shape == fresh.shape else o2.shape}')
+    again = np.array(s1(keep_pts))
+    # (solve_ode_ivp without a transform hands the caller's float64 y0 array itself to SciPy's solve_ivp, whose dense output keeps it
+    #  as the start of its first segment: after `y0[:] = new` the callable obtained earlier starts from the new values - observed on
+    #  the unchanged tree, reported, not asserted here; with a transform and for solve_ode_bvp the library builds its own arrays)
+    if not (kind == 'ivp' and tf is None) and not np.array_equal(again, o1):
+        raise Violation('inplace-reuse', f'the callable obtained before the arguments were refilled in place now answers differently (by {np.max(np.abs(again - o1))})')
+    E = cc_exact_ivp(order, list(B['co']), 1.0, 0.0, 1.5, list(B['y0']))(B['pts']) if kind == 'ivp' else None
+    if E is not None and not np.max(np.abs(o2 - E)) <= 1e-7 * (1 + np.max(np.abs(E))):
+        raise Violation('inplace-reuse', f'second call: off the exact solution for the new contents by {np.max(np.abs(o2 - E)):.3g}')
+    return 'ok'
+
+def check_two_instances(case):
+    # class 26: two problems P and Q that differ in exactly one hidden dependency, solved and evaluated in one process in
+    # either order and interleaved; each answer against the one obtained when its problem came first
+    P, Q = case['P'], case['Q']
+    def run(first, second):
+        s_a = _solver(first[1], first[0], first[2])
+        pa = np.linspace(first[1]['span'][0], first[1]['span'][1], 7)[UNSORTED7]
+        o_a = np.array(s_a(pa))
+        s_b = _solver(second[1], second[0], second[2])
+        pb = np.linspace(second[1]['span'][0], second[1]['span'][1], 7)[UNSORTED7]
+        o_b = np.array(s_b(pb))
+        o_a2 = np.array(s_a(pa))          # the first callable, after the second instance exists and was used
+        o_b2 = np.array(s_b(pb))
+        return o_a, o_b, o_a2, o_b2
+    pa, qb, pa2, qb2 = run(P, Q)
+    qa, pb, qa2, pb2 = run(Q, P)
+    for label, x, y in (('P after Q', pb, pa), ('Q after P', qb, qa), ('P evaluated again after Q was built', pa2, pa),
+                        ('Q evaluated again', qb2, qb), ('Q first, evaluated again after P was built', qa2, qa), ('P second, evaluated again', pb2, pb)):
+        if x.shape != y.shape or not np.array_equal(x, y):
+            raise Violation('two-instances', f'{case["what"]}: {label} differs from the answer obtained when it came first by '
+                            f'{np.max(np.abs(x - y)) if x.shape == y.shape else (x.shape, y.shape)}')
+    for name, (kind, prob, nod), o in (('P', P, pa), ('Q', Q, qa)):
+        pts = np.linspace(prob['span'][0], prob['span'][1], 7)[UNSORTED7]
+        ex, sc = _rows_exact(prob, pts)
+        O = np.atleast_2d(o)
+        e = _rel(O[:1], ex[:1], sc[:1])
+        if not e <= case['tol']:
+            raise Violation('accuracy', f'{case["what"]}: {name} alone is off the exact solution by {e:.3g}')
+    return 'ok'
+'''
+exec(R5_HELPERS, _ns)
+_AUDIT_HEADER = HELPERS + AUDIT_HELPERS + R3_HELPERS + R4_HELPERS + R5_HELPERS + "\nimport signal; signal.alarm(300)\n"
+
 
 def _guarded(setup, call):
     """snippet tail: any exception of the library on a legitimate input counts as a failure (AssertionError)"""
@@ -2634,6 +2896,7 @@ def extreme_ivp_problems(rng, cat, more):
         prob["np_span"] = n % 2 == 1
         out.append((label, prob))
     out += round3_extreme_ivp_problems(rng, cat, more)
+    out += round5_scale_ivp_problems(rng, cat, more)
     return out
 
 
@@ -2672,6 +2935,40 @@ def local_problem(rng, order, name, text, span):
          "p": [y["p"][i] / L ** i for i in range(4)], "x0": a}
     return {"tf": text, "tfname": name, "span": [a, b], "np_span": False, "y": y,
             "coeffs": [{"kind": "const", "c": rng.choice([-1, 1]) * rng.uniform(0.5, 2) * L ** k} for k in range(order + 1)]}
+
+
+# ---- round 5 (class 24): transforms with an explicit scale b on intervals beyond b / around b / from the end of the domain, and
+#      transforms whose b the library infers at first use (b=None): the solution does not depend on the scale --------------------
+R5_SCALE_TFS = {
+    "scale:exp-b=4-beyond-b": ("ExpRTransform", "ExpRTransform(0.1, 5.0, b=4.0)", (3.0, 7.5)),
+    "scale:exp-b=4-from-0-to-b": ("ExpRTransform", "ExpRTransform(0.1, 5.0, b=4.0)", (0.0, 4.0)),
+    "scale:exp-b=4-around-b": ("ExpRTransform", "ExpRTransform(0.1, 5.0, b=4.0)", (3.5, 4.5)),
+    "scale:power-b=4-beyond-b": ("PowerRTransform", "PowerRTransform(0.1, 5.0, b=4.0)", (2.0, 9.0)),
+    "scale:linear-infinite-b=4-beyond-b": ("LinearInfiniteRTransform", "LinearInfiniteRTransform(0.1, 5.0, b=4.0)", (3.0, 9.0)),
+    "scale:hyperbolic-to-15": ("HyperbolicRTransform", "HyperbolicRTransform(0.3, 0.05)", (0.0, 15.0)),
+    "scale:inverse-exp-b=4": ("Inverse(ExpRTransform)", "InverseRTransform(ExpRTransform(0.1, 5.0, b=4.0))", (0.2, 4.5)),
+    "scale:exp-b-inferred": ("ExpRTransform", "ExpRTransform(0.1, 5.0)", (0.3, 1.2)),
+    "scale:power-b-inferred": ("PowerRTransform", "PowerRTransform(0.1, 5.0)", (0.3, 1.2)),
+    "scale:linear-infinite-b-inferred": ("LinearInfiniteRTransform", "LinearInfiniteRTransform(0.1, 5.0)", (0.3, 1.2)),
+}
+
+
+def round5_scale_ivp_problems(rng, cat, more):
+    out = []
+    labels = list(R5_SCALE_TFS)
+    k = rng.randrange(len(labels))
+    for n, label in enumerate(labels if more else [labels[(k + 3 * i) % len(labels)] for i in range(3)]):
+        name, text, span = R5_SCALE_TFS[label]
+        for order in ((1, 2, 3) if more else ([3, 2, 3, 1][(k + n) % 4],)):
+            prob = gen_problem(rng, order, name, cat)
+            prob.update(tf=text, span=list(span), y=_gentle_solution(rng, abs(span[1] - span[0])))
+            if abs(span[1] - span[0]) >= 4:
+                # long intervals: constant coefficients with decaying / oscillating homogeneous solutions (a growing mode amplifies the
+                # integrator's own error - seen on the unchanged tree: 4e-3 with RK45 on [2, 9], with or without the transform)
+                prob["coeffs"] = [{"kind": "const", "c": c} for c in ([1.0, 1.0], [0.5, 0.4, 1.0], [0.5, 1.2, 1.1, 1.0])[order - 1]]
+            prob["method"] = ["DOP853", "RK45"][(k + n + order) % 2]
+            out.append((label, prob))
+    return out
 
 
 def round3_extreme_ivp_problems(rng, cat, more):
@@ -3106,6 +3403,182 @@ def _oracle_round4(ctx, cat, only, large):
 
     _run_parts(ctx, "oracle", [("transform-parameter-kinds", part_param_kinds), ("argument-forms", part_argument_forms),
                                ("shared-argument-objects", part_shared_arguments), ("raising-calls", part_raising_calls)])
+
+
+# ---- round 5: classes 21, 23, 24, 25, 26 ------------------------------------------------------------------------------------------
+BIG_SIZES = [1025, 4097, 20001, 31234, 65537]          # just above 2^10, 2^12, 2*10^4, -, 2^16: no multiple of a block size
+PRECISION_VARIANTS = [(t, w) for t in ("longdouble", "float32", "float16", "int")
+                      for w in ("span", "y0", "points", "mesh", "guess", "boundary-values") if not (t == "int" and w == "guess")]
+INSTANCE_PAIRS = [
+    # (what differs, transform text of P, of Q, order of P, of Q, no_derivatives of P, of Q)
+    ("trim_inf", "HandyRTransform(0.1, 1.5, 2)", "HandyRTransform(0.1, 1.5, 2, trim_inf=False)", 0, 0, False, False),
+    ("the exponent k", "KnowlesRTransform(0.1, 1.5, 2)", "KnowlesRTransform(0.1, 1.5, 3)", 0, 0, False, False),
+    ("the order of the equation", "BeckeRTransform(0.1, 1.5)", "BeckeRTransform(0.1, 1.5)", 2, 3, False, False),
+    ("no_derivatives", "KnowlesRTransform(0.1, 1.5, 3)", "KnowlesRTransform(0.1, 1.5, 3)", 3, 3, False, True),
+    ("the scale R", "BeckeRTransform(0.1, 1.5)", "BeckeRTransform(0.1, 1000.0)", 0, 0, False, False),
+    ("a transform or none", "HandyModRTransform(0.1, 10.0, 3)", "", 0, 0, False, False),
+    ("the scale b", "ExpRTransform(0.1, 5.0, b=4.0)", "ExpRTransform(0.1, 5.0, b=2.0)", 0, 0, False, False),
+    ("rmin", "MultiExpRTransform(0.1, 1.5)", "MultiExpRTransform(0.0, 1.5)", 0, 0, False, False),
+]
+
+
+def _oracle_round5(ctx, cat, only, large):
+    rng = ctx.rng
+    orders = sorted((only or {}).get("orders", {1, 2, 3}))
+    kinds = sorted((only or {}).get("kinds", {"ivp", "bvp"}))
+    more = large or ctx.thorough
+    k0 = rng.randrange(1000)
+
+    def run(fn, case, keys, describe, tag):
+        return _audit_call(ctx, fn, (case,), lambda t: keys.get(t, keys["*"]), describe, case,
+                           _guarded(f"case = {case!r}\n", f"{fn}(case)"), [fn, case], tag, nontrivial=True)
+
+    def part_sizes():
+        k = k0
+        names = ["none", "BeckeRTransform", "Inverse(KnowlesRTransform):k=3", "HandyModRTransform:m=2", "MultiExpRTransform", "ExpRTransform"]
+        # (n, order, no_derivatives): the Bell matrices cost ~0.8 ms per point at order 3
+        plan = [(1025, 3, False), (4097, 2, False), (20001, 1, False)] + ([(65537, 2, True), (31234, 2, False), (4097, 3, False)] if more else [])
+        if ctx.thorough:
+            plan.append((2 ** 19 + 1, 2, True))
+        for i, (n, order, nod) in enumerate(plan):
+            k += 1
+            if order not in orders:
+                order = orders[-1]
+            kind = kinds[(k + i) % len(kinds)]
+            name = names[(k + 2 * i) % len(names)]
+            if n > 2 ** 19:
+                name = "none" if kind == "ivp" else "BeckeRTransform"
+            if kind == "ivp":
+                prob = gen_problem(rng, order, name, cat)
+                prob.update(method="DOP853", rtol=1e-10, atol=1e-12)
+                tol = IVP_FACTOR * 1e-10
+            else:
+                prob = _gen_bvp_problem(rng, order, name, cat, "mixed")
+                tol = BVP_ACCEPT * cat[name][2].get("bvp_tol_factor", 1.0)
+            case = {"prob": prob, "kind": kind, "n": n, "nod": nod, "seed": rng.randrange(2 ** 31), "tol": tol,
+                    "splits": sorted({n // 2, 1024 if n > 1024 else 3, n - 1}) if more else [2 ** (n.bit_length() - 1)]}
+            run("check_many_points", case,
+                {"many-points": f"ode.solve_ode_{kind}:returned-callable:many-points", "shape": f"ode.solve_ode_{kind}:returned-shape",
+                 "*": f"ode.solve_ode_{kind}:returned-callable:many-points:raised"},
+                f"callable returned by solve_ode_{kind} (order {order}, {prob['tf'] or 'no transform'}, no_derivatives={nod}) on {n} shuffled points",
+                f"audit:{kind}:many-points:n={n}")
+        # a mesh with 1025 nodes for solve_ode_bvp (its callbacks then see arrays of that length)
+        if "bvp" in kinds:
+            k += 1
+            name = ["BeckeRTransform", "Inverse(KnowlesRTransform):k=3", "none"][k % 3]
+            prob = _gen_bvp_problem(rng, orders[k % len(orders)], name, cat, "mixed")
+            prob["nmesh"] = [1025, 1537][k % 2]
+            acc = BVP_ACCEPT * cat[name][2].get("bvp_tol_factor", 1.0)
+            key = "ode.solve_ode_bvp:mesh-of-many-nodes"
+            ctx.count(["bvp-big-mesh", prob], nontrivial=True, tag=f"oracle:bvp:mesh-of-{prob['nmesh']}-nodes")
+            try:
+                with time_limit(SOLVE_TIME_LIMIT):
+                    sol, bd = run_bvp(prob)
+                    errs, out = errors(prob, sol, np.linspace(prob["span"][0], prob["span"][1], 9))
+                if max(errs) > acc:
+                    ctx.fail("oracle", key, f"solve_ode_bvp on a mesh of {prob['nmesh']} nodes, {prob['tf'] or 'no transform'}: errors {errs} > {acc}",
+                             witness={"problem": prob, "errors": errs}, snippet=snippet_bvp(prob, acc))
+            except Exception as e:
+                ctx.fail("oracle", key, f"solve_ode_bvp on a mesh of {prob['nmesh']} nodes raised {type(e).__name__}: {e}", witness=prob, snippet=snippet_bvp(prob, acc))
+        # the array helpers themselves
+        for i, n in enumerate([1025, 4097] + ([20001, 65537] if more else []) + ([2 ** 19 + 1] if ctx.thorough else [])):
+            k += 1
+            order = [3, 2, 1][(k + i) % 3]
+            case = {"n": n, "order": order, "seed": rng.randrange(2 ** 31), "tf": ["BeckeRTransform(0.1, 1.5)", "KnowlesRTransform(0.1, 1.5, 3)", "HandyModRTransform(0.1, 10.0, 3)"][k % 3],
+                    "a": [rng.choice([-1, 1]) * rng.uniform(0.5, 2) for _ in range(order + 1)], "splits": sorted({n // 2, 1024, n - 1})}
+            run("check_helper_sizes", case, {"*": "ode.array-helpers:sizes-past-block-boundaries"},
+                f"the array helpers of ode.py on {n} points (order {order}, {case['tf']})", f"audit:helpers:n={n}")
+
+    def part_precision():
+        k = k0
+        for kind in kinds:
+            for i in range(4 if more else 1):
+                k += 1
+                order = orders[(k + i) % len(orders)]
+                tf = ([""] + _TYPED_TFS_12[:-1])[(k + 3 * i) % len(_TYPED_TFS_12)]
+                own = [v for v in PRECISION_VARIANTS if (v[1] in ("span", "y0", "points")) == (kind == "ivp") or v[1] == "points"]
+                pick = own if more else [own[(k + 5 * j) % len(own)] for j in range(5)]
+                case = {"order": order, "kind": kind, "tf": tf, "variants": [list(v) for v in pick]}
+                run("check_precision_kinds", case,
+                    {"precision-kinds": f"ode.solve_ode_{kind}:precision-of-direct-inputs", "caller-data": f"ode.solve_ode_{kind}:caller-data",
+                     "*": f"ode.solve_ode_{kind}:precision-of-direct-inputs:raised"},
+                    f"solve_ode_{kind}, order {order}, {tf or 'no transform'}: inputs given directly as {pick}", f"audit:{kind}:precision-of-direct-inputs")
+
+    def part_scale_sequence():
+        k = k0
+        texts = ["ExpRTransform(0.1, 5.0)", "ExpRTransform(0.1, 5.0, b=4.0)", "PowerRTransform(0.1, 5.0)", "LinearInfiniteRTransform(0.1, 5.0)",
+                 "PowerRTransform(0.1, 5.0, b=4.0)", "LinearInfiniteRTransform(0.1, 5.0, b=4.0)"]
+        for i in range(len(texts) if more else 2):
+            k += 1
+            text = texts[(k0 + i) % len(texts)]
+            name = text.split("(")[0]
+            spans = [(0.3, 1.2), (0.5, 3.0), (2.0, 6.5), (0.0, 0.9)]
+            inferred = "b=" not in text
+            steps = []
+            for j in range(4):
+                kind = kinds[(k + j) % len(kinds)]
+                order = orders[(k + j) % len(orders)]
+                span = spans[(k + j) % len(spans)]
+                if inferred:
+                    # b=None: the library takes b from the first thing the object sees - the largest node of the mesh in solve_ode_bvp,
+                    # but the SCALAR x_span[0] in solve_ode_ivp (its first use is transform.deriv(x_span[0]); a span starting at 0 is then
+                    # rejected: "b 0.0 ... can't be zero").  The solution does not depend on b, but with b = 0.3 the image of x = 3 is
+                    # 1e16: the first problem therefore fixes b = 3 (backward span / mesh up to 3), the later ones stay below 3
+                    span = ((3.0, 0.5) if kind == "ivp" else (0.5, 3.0)) if j == 0 else [(0.3, 1.2), (1.0, 2.5), (0.6, 2.0)][(k + j) % 3]
+                if kind == "ivp":
+                    prob = gen_problem(rng, order, name, cat)
+                    prob.update(method="DOP853", rtol=1e-10, atol=1e-12)
+                else:
+                    prob = _gen_bvp_problem(rng, order, name, cat, "mixed")
+                    prob["nmesh"] = [7, 12, 20][(k + j) % 3]
+                prob.update(tf=text, span=list(span), y=_gentle_solution(rng, span[1] - span[0]))
+                steps.append([kind, prob])
+            case = {"tf": text, "steps": steps, "tol": {"ivp": 3 * IVP_FACTOR * 1e-10, "bvp": 5 * BVP_ACCEPT}}
+            run("check_scale_sequence", case, {"*": "ode.solve_ode:one-transform-object-for-several-problems"},
+                f"one {text} object for {[(kd, p['span']) for kd, p in steps]} in sequence", "audit:scale-parameter:one-object-several-problems")
+
+    def part_inplace():
+        k = k0
+        for kind in kinds:
+            for i in range(3 if more else 1):
+                k += 1
+                case = {"order": orders[(k + i) % len(orders)], "kind": kind, "tf": ([""] + _TYPED_TFS_12[:-1])[(k + 2 * i) % len(_TYPED_TFS_12)]}
+                run("check_inplace_reuse", case, {"*": f"ode.solve_ode_{kind}:argument-objects-refilled-in-place"},
+                    f"solve_ode_{kind}, order {case['order']}, {case['tf'] or 'no transform'}: the same argument arrays refilled in place between two calls",
+                    f"audit:{kind}:arguments-refilled-in-place")
+
+    def part_instances():
+        k = k0
+        for i in range(len(INSTANCE_PAIRS) if more else 2):
+            k += 1
+            what, tP, tQ, oP, oQ, nP, nQ = INSTANCE_PAIRS[(k0 + i) % len(INSTANCE_PAIRS)]
+            kind = kinds[(k + i) % len(kinds)]
+            order = orders[k % len(orders)]
+            span = [0.3, 1.2] if tP.startswith("ExpRTransform") else [-0.5, 0.4]
+
+            def make(text, o, y=None):
+                o = o or order
+                if o not in orders:
+                    o = orders[-1]
+                prob = gen_problem(rng, o, "BeckeRTransform", cat) if kind == "ivp" else _gen_bvp_problem(rng, o, "BeckeRTransform", cat, "one-end")
+                prob.update(tf=text, span=list(span), tfname="MultiExpRTransform" if "MultiExp" in text else "BeckeRTransform",
+                            reverse_mesh="MultiExp" in text, method="DOP853", rtol=1e-10, atol=1e-12)
+                return prob
+            P = make(tP, oP)
+            Q = make(tQ, oQ)
+            if oP == oQ:          # the same equation and solution: only the named thing differs
+                Q.update(y=P["y"], coeffs=P["coeffs"])
+                if kind == "bvp":
+                    Q.update(bc=P["bc"], nmesh=P["nmesh"])
+            case = {"what": f"two problems that differ in {what}", "P": [kind, P, nP], "Q": [kind, Q, nQ],
+                    "tol": IVP_FACTOR * 1e-10 if kind == "ivp" else 5 * BVP_ACCEPT}
+            run("check_two_instances", case, {"two-instances": "ode.solve_ode:two-instances-in-one-process", "*": "ode.solve_ode:two-instances-in-one-process:raised"},
+                f"solve_ode_{kind}: {tP or 'no transform'} (order {len(P['coeffs']) - 1}, no_derivatives={nP}) and {tQ or 'no transform'} "
+                f"(order {len(Q['coeffs']) - 1}, no_derivatives={nQ}) in either order", "audit:two-instances")
+
+    _run_parts(ctx, "oracle", [("sizes-past-block-boundaries", part_sizes), ("precision-of-direct-inputs", part_precision),
+                               ("scale-parameter", part_scale_sequence), ("arguments-refilled-in-place", part_inplace),
+                               ("two-instances", part_instances)])
 
 
 def _run_parts(ctx, stage, parts):
